@@ -3,9 +3,10 @@
 #  demo fails with the mutation, passes without it, and the existing tests of the affected crates
 #  (plus ripd and rip-cli) pass with it. Writes /verif/seeded/<Cxx>/verify.log and prints a summary.
 set -u
-P="$1"
-WT="/tmp/seed-$P"
-OUT="/verif/seeded/$P"; mkdir -p "$OUT"
+# usage: verify_seed.sh <Cxx> [round]   (round 2: worktree /tmp/seed2-<Cxx>, output /verif/seeded/<Cxx>-2)
+P="$1"; R="${2:-1}"
+if [ "$R" = 1 ]; then WT="/tmp/seed-$P"; OUT="/verif/seeded/$P"; else WT="/tmp/seed$R-$P"; OUT="/verif/seeded/$P-$R"; fi
+mkdir -p "$OUT"
 LOG="$OUT/verify.log"; : > "$LOG"
 cd "$WT" || exit 2
 export CARGO_NET_OFFLINE=true; unset RUSTFLAGS
